@@ -267,8 +267,13 @@ def wire_history(run, rng, steps):
             else:
                 exp = str(routers[want])
                 if pend and not data:
-                    continue
-                if [dst for dst, f in data] != [exp]:
+                    # earlier probes for this network are still parked - but the node knows a router now: what is sent
+                    # afterwards follows that knowledge instead of joining the queue
+                    run.violation("request-parked-although-a-path-is-known", {"history": hist[-10:], "dnet": d, "known_router": exp,
+                                                                              "parked": len(nsap.pending_nets.get(d, []))})
+                    return False
+                # (what was parked for this network while no path was known is released along with it: same next hop)
+                if not data or any(dst != exp for dst, f in data) or (len(data) > 1 and not pend):
                     run.violation("traffic-follows-stale-routing-knowledge", {"history": hist[-10:], "dnet": d,
                                                                               "next_hops": [dst for dst, f in data], "expected": exp})
                     return False
@@ -389,10 +394,12 @@ def wire_history_two_ports(run, rng, steps):
                     run.violation("traffic-sent-to-forgotten-or-unknown-router", {"history": hist[-8:], "dnet": d, "next_hop": got[0]})
                     return
                 parked[d] += 1
-            elif len(got) != 1 or got[0] not in known:
+            elif len(got) != 1 + parked[d] or any(g not in known for g in got) or len(set(got)) != 1:
                 run.violation("traffic-follows-stale-routing-knowledge/two-ports", {"history": hist[-8:], "dnet": d, "sent_as_(network, next hop)": got[:4],
-                                                                                  "current_knowledge": sorted(known)})
+                                                                                  "current_knowledge": sorted(known), "parked_before": parked[d]})
                 return
+            else:
+                parked[d] = 0
     run.count("wire_histories_two_ports")
 
 
